@@ -432,6 +432,10 @@ _PL = {}
 sym.RESET_HOOKS.append(_PL.clear)
 
 
+INTERP_TABLES = {}       # name of a named interpolant -> (kind, abscissae, ordinates, length): its table (for sedvc/concretize.py)
+sym.RESET_HOOKS.append(INTERP_TABLES.clear)
+
+
 def interp_function(st, xp, fp):
     """The piecewise-linear interpolant F of the table (xp, fp) as a named function Real -> Real
     (one symbol per table), with np.interp's dependency contract as hypotheses:
@@ -446,6 +450,8 @@ def interp_function(st, xp, fp):
         idx = len(_PL)
         _PL[key] = (z3.Function('PL%d' % idx, z3.RealSort(), z3.RealSort()), z3.Function('PLseg%d' % idx, z3.RealSort(), z3.IntSort()))
     F, SEG = _PL[key]
+    INTERP_TABLES[F.name()] = ('1d', pf, ff, n)
+    INTERP_TABLES[SEG.name()] = ('seg', pf, ff, n)
     f = lambda v: Sc(F(to_z3(v, 'real')))
     seg = lambda v: Sc(SEG(to_z3(v, 'real')))
     tag = ('pl', key)
@@ -495,6 +501,8 @@ def row_interpolant(st, xp, fp2):
         idx = len(_PL)
         _PL[key] = (z3.Function('PLrow%d' % idx, z3.IntSort(), z3.RealSort(), z3.RealSort()), z3.Function('PLrowseg%d' % idx, z3.RealSort(), z3.IntSort()))
     G, SEG = _PL[key]
+    INTERP_TABLES[G.name()] = ('row', pf, ff, n)
+    INTERP_TABLES[SEG.name()] = ('seg', pf, ff, n)
     g = lambda i, v: Sc(G(to_z3(i, 'int'), to_z3(v, 'real')))
     seg = lambda v: Sc(SEG(to_z3(v, 'real')))
     tag = ('plrow', key)
